@@ -1554,6 +1554,97 @@ fn build(d: &mut Dice) -> GenCase {
     c
 }
 
+/// Deterministic cases: the user's own type parameter carries a name an expansion might want for a generic parameter, an
+/// associated type or a binding of its own (`I`, `Rhs`, `Output`, `Item`, `Target`, `Err`, ..). One-parameter newtypes /
+/// one-variant enums over that parameter, one derive (set) each; every one must compile, warning-free.
+fn fixed() -> Vec<GenCase> {
+    const NAMES: [&str; 13] = ["I", "F", "E", "R", "Rhs", "Output", "Item", "Target", "Idx", "Err", "Error", "Iter", "Fmt"];
+    // (derive list, item template with `@P` for the parameter)
+    const ITEMS: [(&str, &str); 30] = [
+        ("Add, Sum", "pub struct S<@P>(pub @P);"),
+        ("Mul, Product", "#[mul(forward)] pub struct S<@P>(pub @P);"),
+        ("Add, Sub, BitAnd, BitOr, BitXor", "pub struct S<@P>(pub @P, pub @P);"),
+        ("Mul, Div, Rem, Shr, Shl", "pub struct S<@P>(pub @P);"),
+        ("AddAssign, SubAssign, MulAssign, DivAssign", "pub struct S<@P>(pub @P);"),
+        ("Not, Neg", "pub struct S<@P>(pub @P);"),
+        ("Add, Not", "pub enum S<@P> { A(@P), B { x: @P }, U }"),
+        ("From", "pub struct S<@P>(pub @P, pub u8);"),
+        ("From", "#[from(forward)] pub struct S<@P>(pub Vec<@P>);"),
+        ("From", "pub enum S<@P> { A(@P), #[from(forward)] B { x: Vec<@P> } }"),
+        ("Into", "#[into(owned, ref, ref_mut)] pub struct S<@P>(pub @P, pub u8);"),
+        ("Constructor", "pub struct S<@P> { pub a: @P, pub b: u8 }"),
+        ("Display", "#[display(\"{_0}\")] pub struct S<@P>(pub @P);"),
+        ("Display", "#[display(\"<{_variant}>\")] pub enum S<@P> { A(@P), #[display(\"{x:?}\")] B { x: @P } }"),
+        ("Debug", "pub struct S<@P> { pub a: @P, #[debug(skip)] pub b: u8 }"),
+        ("FromStr", "pub struct S<@P>(pub @P);"),
+        ("AsRef, AsMut", "#[as_ref(forward)] #[as_mut(forward)] pub struct S<@P>(pub @P);"),
+        ("AsRef", "pub struct S<@P>(#[as_ref(@P)] pub @P);"),
+        ("Deref, DerefMut", "pub struct S<@P>(pub @P);"),
+        ("Deref, DerefMut", "#[deref(forward)] #[deref_mut(forward)] pub struct S<@P>(pub Box<@P>);"),
+        ("Index, IndexMut", "pub struct S<@P>(pub Vec<@P>);"),
+        ("IntoIterator", "pub struct S<@P>(#[into_iterator(owned, ref, ref_mut)] pub Vec<@P>);"),
+        ("IsVariant, Unwrap, TryUnwrap", "#[unwrap(ref, ref_mut)] #[try_unwrap(ref, ref_mut)] pub enum S<@P> { A(@P), B(u8, @P), U }"),
+        ("TryInto", "#[try_into(owned, ref, ref_mut)] pub enum S<@P> { A(Vec<@P>), B(u8, u16) }"),
+        ("TryFrom", "#[try_from(repr)] #[repr(u8)] pub enum S<@P> { A = 1, B(@P) = 2 }"),
+        ("Display, Error", "#[display(\"e\")] pub struct S<@P> { pub source: @P }"),
+        ("Display, Error", "#[display(\"e\")] pub enum S<@P> { A { source: @P }, B(#[error(not(source))] u8) }"),
+        ("Binary, Octal, LowerHex, UpperHex, LowerExp, UpperExp, Pointer", "pub struct S<@P>(pub @P);"),
+        ("Sum", "#[derive(derive_more::Add)] pub struct S<@P> { pub a: @P, pub b: @P }"),
+        ("Product", "#[derive(derive_more::Mul)] #[mul(forward)] pub struct S<@P> { pub a: @P }"),
+    ];
+    let mut out = vec![];
+    for name in NAMES {
+        for (derives, item) in ITEMS {
+            let list: Vec<String> = derives.split(", ").map(|d| format!("derive_more::{d}")).collect();
+            let item = item.replace("@P", name);
+            let body = format!("#[derive({})]\n{item}", list.join(", "));
+            // control: the same item without derive_more's derives and helper attributes
+            let mut ctl = String::new();
+            let mut rest = item.as_str();
+            while let Some(r) = rest.strip_prefix("#[") {
+                let end = r.find("] ").map(|i| i + 2).unwrap_or(0);
+                rest = &r[end..];
+            }
+            let mut depth = 0i32;
+            let mut skip = false;
+            let chars: Vec<char> = rest.chars().collect();
+            let mut i = 0;
+            while i < chars.len() {
+                // drop field / variant level `#[..]` attributes as well
+                if chars[i] == '#' && chars.get(i + 1) == Some(&'[') {
+                    skip = true;
+                    depth = 0;
+                }
+                if skip {
+                    if chars[i] == '[' {
+                        depth += 1;
+                    }
+                    if chars[i] == ']' {
+                        depth -= 1;
+                        if depth == 0 {
+                            skip = false;
+                            i += 1;
+                            continue;
+                        }
+                    }
+                    i += 1;
+                    continue;
+                }
+                ctl.push(chars[i]);
+                i += 1;
+            }
+            let mut c = GenCase::new(body);
+            c.runnable = false;
+            c.control = Some(ctl);
+            c.nontrivial = true;
+            c.labels = vec!["fixed=user_parameter_named_like_an_expansion_name".into(), format!("param_name={name}")];
+            c.meta = json!({"derives": derives.split(", ").collect::<Vec<_>>()});
+            out.push(c);
+        }
+    }
+    out
+}
+
 fn classify(c: &GenCase, r: &CaseResult, f: &Finding) -> Option<String> {
     let has = |l: &str| c.labels.iter().any(|x| x == l);
     if !r.compiled {
@@ -1582,7 +1673,7 @@ pub fn prop() -> DiceProp {
         quick: (12000, 1),
         thorough: (6000, 8),
         build,
-        fixed: no_fixed,
+        fixed,
         classify: classify_with_warnings,
         rule: "derive (all 50, grouped in 20 classes) x item kind (unit/tuple/named struct, enum mixing unit/tuple/named variants, union) x generics (0..2 lifetimes, 0..2 type parameters with inline bounds/defaults, 0..3 const parameters incl. unused and defaulted, where-clauses, consts before types) x field types (universal helper types implementing every required trait, bare type parameters, composites where the derive requires nothing) x raw-identifier field/variant names x documented attributes (incl. field-level `#[into(..)]`, `#[as_ref(skip|forward|<types>)]` on fields and type lists naming the field's own type, variant-level `#[from(<types>)]`, `#[try_into]`/`ignore`/reference kinds on variants, TryInto variants sharing their field types, Error variants with two fields and field attributes, boxed `dyn Error` fields, TryFrom without `#[repr]` / with `#[repr(C, int)]` / with field-bearing and `{}` variants, enum-level and `rename_all` / `bound(..)` fmt attributes, struct/variant-level `#[debug(\"..\")]`, `S()` / `S {}` structs) x decorations (#[deprecated] field / variant / field of a variant, uninhabited field: `Infallible` or the never type through `<fn() -> ! as Tr>::T`, also where they meet the derive's trait requirement: Display, Error); the shard root allows only dead_code and unused_imports, so naming and unused-variable lints raised in expansions count; oracle: rustc (`cargo check`) accepts the case and reports no warning whose primary span lies in a derive expansion; control rendering without derive_more guards generator soundness; non-trivial = has a generic parameter, an attribute, a raw identifier or a decoration; distinct by program text".into(),
         assumptions: vec!["support table of what each derive documents (DESIGN Appendix A) is transcribed correctly".into()],
